@@ -429,6 +429,17 @@ class Check:
                 pass
         return results
 
+    def tv_sample(self, plan, name, flavours, k=40, max_cost=20.0, pred=None):
+        """quick tier: a random sample of the plan's cases (optionally those satisfying pred) replayed on other
+        back ends / share configurations.  The sample is judged by TLC once; a configuration whose trace text
+        is identical inherits the verdict, so the cost is one extra validation plus the driver runs."""
+        cases = [cs for cs in plan.cases if pred is None or pred(cs)]
+        if len(cases) > k: cases = self.rng.sample(cases, k)
+        q = Plan(); q.cases = cases
+        build_many(list(flavours))
+        for fl in flavours:
+            self.tv(q, fl, name, max_cost=max_cost)
+
     def distinct(self, items):
         for it in items:
             self._distinct.add(it)
